@@ -22,12 +22,14 @@ import (
 	"fmt"
 	"io"
 	"log"
+	"net/http"
 	"net/url"
 	"os"
 	"path/filepath"
 	"sort"
 	"strings"
 	"sync"
+	"time"
 
 	jose "github.com/go-jose/go-jose/v4"
 
@@ -35,6 +37,7 @@ import (
 	"verif/internal/keys"
 	"verif/internal/mon"
 	"verif/internal/opdrv"
+	"verif/internal/sched"
 	"verif/internal/vstore"
 )
 
@@ -60,6 +63,7 @@ func Run(run *ev.Run) {
 	log.SetOutput(io.Discard) // op.hostFromForwarded logs every malformed Forwarded header through the std logger
 	defer log.SetOutput(oldLog)
 
+	sched.Install() // the library's spans become yield points (ctxend.go); inert for goroutines that are not registered
 	run.Assume("front http: requests are built the way net/http's server hands them to a handler (request target accepted by url.ParseRequestURI, header values and Host accepted by httpguts; what the server itself answers 400 to is repaired before execution and counted)",
 		"front http: a mutating storage call is one of vstore.Entry.Mutating(); 'after the error response' = journal Seq greater than the recorder's FirstWriteSeq within the same request, on a store that serves one request at a time")
 	var mand []string
@@ -94,6 +98,7 @@ func Run(run *ev.Run) {
 		}
 		mand = append(mand, "http:storage-fault-fired:"+rn)
 		mand = append(mand, storErrMandatory(rn, run.Tier == ev.Thorough)...)
+		mand = append(mand, ctxEndMandatory(rn, run.Tier == ev.Thorough)...)
 	}
 	run.Mandatory(mand...)
 
@@ -126,6 +131,8 @@ func Run(run *ev.Run) {
 			if c >= 0 {
 				runCase(run, fl, 0, c, opdrv.RouterProvider)
 				runCase(run, fl, 0, c, opdrv.RouterLegacy)
+				runCtxCase(run, fl, 0, c, opdrv.RouterProvider)
+				runCtxCase(run, fl, 0, c, opdrv.RouterLegacy)
 			}
 		}
 		return
@@ -136,6 +143,17 @@ func Run(run *ev.Run) {
 	ev.Parallel(n, 0, func(worker, i int) {
 		runCase(run, fl, worker, i, opdrv.RouterProvider)
 		runCase(run, fl, worker, i, opdrv.RouterLegacy)
+	})
+	// cancellation at a point (ctxend.go): worlds of their own, after the fuzz batch - while a request is traced or
+	// parked, every yield point of every goroutine pays for a goroutine look-up, so the two do not run side by side
+	n2 := run.N(ctxCasesQuick, ctxCasesThorough)
+	t2 := time.Now()
+	defer func() {
+		run.Extra("http_ctx_end_batch_informational", map[string]any{"cases": n2, "wall_seconds": float64(time.Since(t2).Milliseconds()) / 1000})
+	}()
+	ev.Parallel(n2, 0, func(worker, i int) {
+		runCtxCase(run, fl, worker, i, opdrv.RouterProvider)
+		runCtxCase(run, fl, worker, i, opdrv.RouterLegacy)
 	})
 	fl.done()
 }
@@ -217,7 +235,11 @@ func trim(s string, n int) string {
 
 // ---------- execution ----------
 
-func (x *world) exec(q *Req, router int) *opdrv.Resp {
+func (x *world) exec(q *Req, router int) *opdrv.Resp { return x.execWith(q, router, nil) }
+
+// execWith executes and judges q like exec; serve (nil = opdrv.Serve) is how the handler is called: under a trace of
+// its yield points, or with a request context that ends at a chosen one (ctxend.go).
+func (x *world) execWith(q *Req, router int, serve func(h http.Handler, hr *http.Request) *opdrv.Resp) *opdrv.Resp {
 	if rep := q.sanitise("op.verif.test"); rep > 0 {
 		x.run.CountN("http:repaired_before_execution(server would answer 400 itself)", "parts", int64(rep))
 	}
@@ -229,7 +251,12 @@ func (x *world) exec(q *Req, router int) *opdrv.Resp {
 	x.k++
 	x.fl.set(x.worker, x.caseIdx, opdrv.RouterNames[router], x.k, q)
 	x.run.Eval()
-	resp := opdrv.Serve(x.w.Handlers[router], hr, router)
+	var resp *opdrv.Resp
+	if serve != nil {
+		resp = serve(x.w.Handlers[router], hr)
+	} else {
+		resp = opdrv.Serve(x.w.Handlers[router], hr, router)
+	}
 	x.judge(q, router, resp)
 	if len(x.hist) >= 8 {
 		x.hist = x.hist[1:]
